@@ -252,4 +252,5 @@ func runC13(r *Run, rng *Rng, thorough bool) {
 	})
 	runFilterCases(r, rng, thorough)
 	surfaceValidators(r, rng, map[bool]int{false: 400, true: 20000}[thorough])
+	oidProfiles(r, rng)
 }
